@@ -53,6 +53,12 @@ func finish(x *X, n *Node, ss []sample, extra string) {
 	h := uint64(n.M.State().Height())
 	v := uint64(n.M.State().View())
 	blocked := len(s.Blocked())
+	// C19/C05: a running node that has gone quiet outside every SPI call is waiting for messages or for its timeout;
+	// if no election timer is armed (and no trigger is in flight, since nothing is enabled), the timeout of the
+	// position it sits in can never arrive any more.
+	if n.Ctx.Err() == nil && n.InSPI == 0 && len(s.Panics) == 0 && s.Quiescent() && s.ArmedTimers() == 0 && h > 0 {
+		x.Bad("C19", "quiescent-without-timer", "the node sits in (h%d,v%d) with nothing left to run, no election timer armed and no trigger in flight: the timeout of this position is lost (events %v)", h, v, tail(n.Events, 8))
+	}
 	n.Shutdown(true)
 	for _, e := range s.Errors {
 		x.Bad("HARNESS", "assumption", "%s", e)
@@ -446,6 +452,42 @@ func init() {
 		finish(x, n, nil, "")
 	}})
 	quickBound["S-stale-trigger+cancel"], thoroughBound["S-stale-trigger+cancel"] = 3, 4
+
+	// S-trigger-behind-stale: a stale election trigger (h1,v0) is parked in the worker's one-slot queue while the
+	// worker (the leader) is held inside a slow RequestNewBlockProposal; a sync to height 1 is queued as well. Once
+	// released, the worker may take the sync first, become leader of height 2 and block in RequestNewBlockProposal(h2)
+	// under its context; then the (h2,v0) timer expires. The newest trigger must win the queue slot: the node has to
+	// reach (h2,v1). (C19: an armed, un-superseded timer delivers its trigger; C05.)
+	registerBoth("S-trigger-behind-stale", []string{"C19", "C15"}, 2, 3, 4, func(x *X, cancel bool) {
+		n := newNode(x, 0)
+		hold := make(chan struct{})
+		n.HoldReq[1] = hold
+		n.BlockReq[2] = true
+		n.Boot() // leader of (h1,v0): held in RequestNewBlockProposal
+		s := x.S
+		s.PrefixFires = 1
+		s.NoBranch = true
+		s.Run(20000) // the (h1,v0) timer expires, its trigger is queued behind the held worker ...
+		s.PrefixFires = 0
+		s.Thread("sync", func() { n.M.UpdateState(n.Ctx, kit.NewBlock(1, "B1"), n.proofFor(1, "B1")) })
+		s.Run(20000) // ... and so is the sync
+		s.NoBranch = false
+		s.Thread("release", func() {
+			vs.Closed(hold)
+			close(hold)
+		})
+		addCancel(n, cancel)
+		if !s.Run(20000) {
+			x.Bad("C16", "livelock", "step horizon reached")
+		}
+		if !cancel && s.Fires == 2 && s.Quiescent() {
+			h, v := uint64(n.M.State().Height()), uint64(n.M.State().View())
+			if h == 2 && v == 0 && s.ArmedTimers() == 0 {
+				x.Bad("C19", "trigger-lost", "the election timer of (h2,v0) expired but the node is still in (h2,v0) (events %v)", tail(n.Events, 8))
+			}
+		}
+		finish(x, n, nil, "")
+	})
 
 	// S-state: the State object alone. One writer (the worker's role: view change, then next height), one reader
 	// taking two (height, view) snapshots. Every snapshot must be a state that existed, and snapshots never go back.
